@@ -17,8 +17,8 @@ theorem concatPrefix_eq (a b : Bytes) : concatPrefix a b = a ++ b := by
 
 /-- **Registration through groups is registration of the concatenated path** (`Group.Group` and
 `Group.addRoute` only concatenate). -/
-theorem flatten_groups (g : Reg) : fullPathOf g = g.groups.foldr (· ++ ·) g.path := by
-  unfold fullPathOf
+theorem flatten_groups_sub (g : Reg) :
+    concatPrefix (g.groups.foldl concatPrefix []) g.path = g.groups.foldr (· ++ ·) g.path := by
   rw [concatPrefix_eq]
   have : ∀ (l : List Bytes) (acc : Bytes), l.foldl concatPrefix acc ++ g.path = acc ++ l.foldr (· ++ ·) g.path := by
     intro l
@@ -28,6 +28,49 @@ theorem flatten_groups (g : Reg) : fullPathOf g = g.groups.foldr (· ++ ·) g.pa
       intro acc
       simp only [List.foldl_cons, List.foldr_cons, concatPrefix_eq, ih, List.append_assoc]
   simpa using this g.groups []
+
+theorem trimSuffixSlash_eq (s : Bytes) : trimSuffixSlash s = if s.getLast? = some '/' then s.dropLast else s := by
+  unfold trimSuffixSlash
+  rw [← List.head?_reverse]
+  cases hr : s.reverse with
+  | nil => simp
+  | cons c r =>
+    have hs : s = r.reverse ++ [c] := by
+      have := congrArg List.reverse hr
+      simpa using this
+    by_cases hc : c = '/'
+    · subst hc
+      simp [hs]
+    · have : ¬ (some c = some '/') := by simpa using hc
+      simp only [List.head?_cons, this, if_false]
+      split
+      · rename_i r' heq
+        injection heq with h1 _
+        exact absurd h1 hc
+      · rfl
+
+/-- **Registration through groups and through Mount is registration of the text the oracle reads**
+(`Group.Group` / `Group.addRoute` only concatenate; `Mount` / `mountRoute` normalise the prefix and put it in
+front, `/` standing for the prefix itself). -/
+theorem flatten_groups (g : Reg) : fullPathOf g = regText g := by
+  unfold fullPathOf regText
+  simp only [flatten_groups_sub]
+  cases g.mount with
+  | none => rfl
+  | some pre =>
+    simp only [mountPath, trimSuffixSlash_eq]
+    have hh : ∀ p : Bytes, (p = [] ∨ p.head? ≠ some '/') ↔ ¬ (p.head? = some '/') := by
+      intro p
+      constructor
+      · rintro (h | h)
+        · subst h; simp
+        · exact h
+      · intro h; exact Or.inr h
+    generalize (if pre.getLast? = some '/' then pre.dropLast else pre) = q
+    by_cases h1 : q.head? = some '/'
+    · have hq : q ≠ [] := by intro e; rw [e] at h1; simp at h1
+      simp [h1, hq]
+    · simp [h1]
 
 /-- registration of one oracle route in the model's router -/
 def registerR (r0 : Router) (r : Route) : Router :=
@@ -43,7 +86,7 @@ theorem buildFrom_eq (script : List Reg) : ∀ (i : Nat) (R : List Route), specR
   | cons g gs ih =>
     intro i R h r0
     simp only [specRoutesFrom] at h
-    cases hp : parsePattern (g.groups.foldr (· ++ ·) g.path) with
+    cases hp : parsePattern (regText g) with
     | none => simp [hp] at h
     | some p =>
       cases hr : specRoutesFrom (i + 1) gs with
